@@ -416,6 +416,16 @@ def space(ctx):
                      three_operator_alphabet='integer and real trees, reduced alphabet, plain binary nodes + unary minus')
         plain = G.Enumerator(dict(_CFG, forms=('plain',), arities=(2,)))
         sub_types, sub_hosts, sim_sizes = 'ir', G.Enumerator(dict(_CFG, arities=(2,))), (1, 2)
+    # flattened signed products Product((-1, x, y[, z])) and half-integral powers of perfect squares (both tiers)
+    nmp = nsq = 0
+    for T in 'ir':
+        for t in G.minus_products(T, _CFG):
+            items.append({'tree': t})
+            nmp += 1
+    for t in G.sqrt_powers(_CFG):
+        items.append({'tree': t})
+        nsq += 1
+    bound.update(flattened_minus_products=nmp, half_integral_powers_of_perfect_squares=nsq)
     # closure under Loki's own tree builders (the statement names substitution and simplification)
     nsub = nsim = 0
     for T in sub_types:
